@@ -279,6 +279,9 @@ func (vc *FnVC) instr(ins ssa.Instruction, st *State) {
 		vc.setCompFresh(st, mv, sto(vc.cur(st, mv), r, "((as const "+arraySort(ks, vs)+") "+vc.enc.zero(m.Elem())+")"))
 		vc.setCompFresh(st, "ML", sto(vc.cur(st, "ML"), r, "0"))
 		vc.setTerm(x, r)
+		if privateMap(x) {
+			vc.privCells = append(vc.privCells, privCell{ref: r, comp: mh}, privCell{ref: r, comp: mv}, privCell{ref: r, comp: "ML"})
+		}
 	case *ssa.MakeSlice:
 		sl := x.Type().Underlying().(*types.Slice)
 		comp, es := vc.elemComp(sl.Elem())
